@@ -28,7 +28,7 @@ func init() {
 			// C11, the error side: how the description / state of an error answer come about before they are put on the wire
 			Out:     "AuthError.lean",
 			NS:      "GenErr",
-			Imports: []string{"OidcModel.Model.AuthError", "OidcModel.Generated.AuthResponse"},
+			Imports: []string{"OidcModel.Model.AuthError", "OidcModel.Model.ErrPar", "OidcModel.Generated.AuthResponse"},
 			Opens:   []string{"Go", "AR.Err"},
 			Funcs: []FuncSpec{
 				{File: "pkg/oidc/error.go", Name: "Error.WithDescription", Lean: "WithDescription",
@@ -46,7 +46,7 @@ func init() {
 					Params: []string{"(urlParse : AR.Bytes → Go.R AR.URL)", "(authReq : AR.ErrReq)", "(parent : AR.GoErr)", "(encoder : Unit)", "(logger : Unit)"}, Ret: RetValErr, RetType: "AR.Redirect",
 					Rename: c11ErrRename},
 			},
-			Extra: c11SharedErrors,
+			Extra: func(g *genCtx) string { return c11SharedErrors(g) + c11ErrPrograms(g) },
 		},
 	}...)
 }
